@@ -575,13 +575,20 @@ func (c *wsConn) closeInFlight() {
 	c.inflightLk.Lock()
 	for id, req := range c.inflight {
 		vhook("cif.send", c, "id", id, "a", req.ready)
-		req.ready <- clientResponse{
+		select {
+		case req.ready <- clientResponse{
 			Jsonrpc: "2.0",
 			ID:      id,
 			Error: &JSONRPCError{
 				Message: "handler: websocket connection closed",
 				Code:    eTempWSError,
 			},
+		}:
+		default:
+			// req.ready (capacity 1) already holds the response to this
+			// request: it was delivered just before the connection dropped.
+			// Blocking here, with inflightLk held, can deadlock with the frame
+			// executor and with a caller enqueuing a cancel request.
 		}
 	}
 	c.inflight = map[interface{}]clientRequest{}
